@@ -43,8 +43,8 @@ func c10Check(c c10Case) *Violation {
 
 func c10InsDel(c c02Case) *Violation {
 	hostBytes, guestBytes := idBytes(0, c.HostLen), idBytes(40, c.GuestLen)
-	host := gts.New(nil, featsToGts(c.Host), append([]byte(nil), hostBytes...))
-	guest := gts.New(nil, featsToGts(c.Guest), append([]byte(nil), guestBytes...))
+	host := c02Carry(mod(c.Carrier, 2), "HOST", c.Host, hostBytes)
+	guest := c02Carry(mod(c.Carrier, 2), "GUEST", c.Guest, guestBytes)
 	name := "Insert"
 	if c.Embed {
 		name = "Embed"
